@@ -35,6 +35,11 @@ func overrunCmd(shape, pidfile string, timeoutMs int) string {
 		// many short statements: none of them overruns on its own, together they take 7 x the timeout
 		one := fmt.Sprintf("sleep %.3f", float64(timeoutMs)*0.6/1000)
 		return strings.Join([]string{one, one, one, one, one, one, one, one, one, one, one, one}, "\n")
+	case "background-wait":
+		// part of the command runs in the background and the command waits for it
+		return fmt.Sprintf("sh -c 'echo $$ >> %s; exec sleep 20' & wait", pidfile)
+	case "background-then-foreground":
+		return fmt.Sprintf("true & sh -c 'echo $$ >> %s; exec sleep 20'", pidfile)
 	case "busy":
 		return "i=0; while [ $i -lt 6000000 ]; do i=$((i+1)); done" // ~20 s of pure shell, bounded so that a tree without timeouts still terminates
 	case "ignore-int":
@@ -236,7 +241,7 @@ func runTimeoutCase(a args, tcx toCase, idx int, confirm bool) (suspect string) 
 func modeTimeout(a args) {
 	var cases []toCase
 	rnd := h.NewRand(a.Seed, "timeout")
-	shapes := []string{"sleep", "busy", "ignore-int", "subshell", "pipeline", "statements"}
+	shapes := []string{"sleep", "busy", "ignore-int", "subshell", "pipeline", "statements", "background-wait", "background-then-foreground"}
 	tmos := []int{100, 200, 400, 700, 1000}
 	for _, shape := range shapes {
 		for n := 1; n <= 3; n++ {
